@@ -290,7 +290,7 @@ def _enum_slice(k, parts):
 
 
 def shards(tier):
-    n = 250 if tier == "quick" else 20000
+    n = 600 if tier == "quick" else 20000
     out = [Shard(f"gen-{i}", lambda: cases(), n, subject="interference") for i in range(12)]
     out += [Shard(f"enum-pairs-{k}", cases=_enum_slice(k, 4), subject="interference", exhaustive=True, cost=2) for k in range(4)]
     out.append(Shard("enum-templates", cases=_enumerated_templates, subject="interference", exhaustive=True, cost=2))
